@@ -11,6 +11,7 @@
 #include "nmtools/utility/at.hpp"
 #include "nmtools/utility/cast.hpp"
 #include "nmtools/utility/get.hpp"
+#include "nmtools/utility/verif_index.hpp"
 
 // experimental version that combine all three to single class
 
@@ -313,18 +314,36 @@ namespace nmtools::array
         {
             auto indices_ = index::pack_indices(indices...);
             auto offset   = self()->offset_(indices_);
+            NMTOOLS_VERIF_EVENT(verif::check_indices(verif::NDARRAY_INDEX,indices_,self()->shape_));
             return offset;
         }
+
+        #ifdef NMTOOLS_VERIF
+        template <typename offset_type>
+        constexpr void verif_offset([[maybe_unused]] const offset_type& offset) const
+        {
+            using buffer_type = meta::remove_cvref_t<decltype(self()->data_)>;
+            if constexpr (!meta::is_pointer_v<buffer_type>) {
+                NMTOOLS_VERIF_EVENT(verif::bounds(verif::NDARRAY_OFFSET,verif::to_ll(offset),verif::to_ll(len(self()->data_))));
+            }
+        }
+        #endif // NMTOOLS_VERIF
 
         template <typename...size_types>
         constexpr decltype(auto) operator()(const size_types&...indices)
         {
+            #ifdef NMTOOLS_VERIF
+            verif_offset(offset(indices...));
+            #endif // NMTOOLS_VERIF
             return nmtools::at(self()->data_,offset(indices...));
         } // operator()
 
         template <typename...size_types>
         constexpr decltype(auto) operator()(const size_types&...indices) const
         {
+            #ifdef NMTOOLS_VERIF
+            verif_offset(offset(indices...));
+            #endif // NMTOOLS_VERIF
             return nmtools::at(self()->data_,offset(indices...));
         } // operator()
     }; // base_ndarray_t
